@@ -36,6 +36,7 @@ func init() {
 			{ID: "C06.R14", Text: "no offset is handed on for an event that did not pass the snapshot test of its own handler: every event wrapper is built by the stream-observer handler of its own kind from the event it received (same rule as C03.R4)", Run: c03r4},
 			{ID: "C06.R15", Text: "a loaded checkpoint is the one stored for that vBucket: the file backend returns the decoded file under the keys it was written with (no re-keying by position), an empty document per requested vBucket when there is no file (same rule as C02.R15)", Run: fileLoadExact},
 			{ID: "C06.R16", Text: "a server event outside its announced snapshot stops the client: the module never recovers a panic (same rule as C15.R23)", Run: neverRecovers},
+			{ID: "C06.R17", Text: "the fail-over log and sequence numbers a resume point is built from are the current answers of the server: no caching layer in front of the client (same rules as C20.R19 and C20.R20)", Run: func(c *Ctx, id string) { decoratorsTransparent()(c, id); noNewLayers(c, id) }},
 			{ID: "C06.R5", Text: "the persisted document is built field by field from one offset (same rule as C02.R2)", Run: c02r2},
 		},
 	})
